@@ -128,8 +128,8 @@ def put(fmt, obj, n, text):
 
 def snapshot(fmt, obj):
     """canonical, comparable view of the tags"""
-    if obj.tags is None:
-        return None
+    if obj.tags is None or len(obj.tags.keys()) == 0:
+        return None           # "an empty tag reads as no tag"
     fam = fmt.family
     out = {}
     if fam == "id3":
@@ -142,7 +142,7 @@ def snapshot(fmt, obj):
             out[k.lower()] = (v.kind, bytes(v.value) if isinstance(v.value, (bytes, bytearray)) else v.value)
         elif fam == "asf":
             out[k] = [(type(x).__name__, x.value if not isinstance(x.value, (bytes, bytearray)) else bytes(x.value),
-                       x.language, x.stream) for x in v]
+                       x.language or 0, x.stream or 0) for x in v]
         elif fam == "mp4":
             out[k] = [bytes(x) if isinstance(x, (bytes, bytearray)) else x for x in v] if isinstance(v, list) else v
         else:
